@@ -403,6 +403,10 @@ SEED_BOOKS = {
     "crossed_off": [("R",), L(B, 101, 2), L(B, 100, 1), L(S, 99, 1), L(S, 100, 2), ("R",)],
     # equal-time crossing pairs accumulated while not running (tie decided by id)
     "crossed_tie": [("R",), L(S, 99, 1), L(B, 101, 1), L(B, 100, 1), L(S, 100, 1), ("R",)],
+    # crossed book whose first pair has the buy accepted earlier and whose last pair has the sell accepted earlier
+    # (and the mirror image), with different limits in the last pair
+    "crossed_flip": [("R",), L(B, 101, 1), L(S, 99, 1), L(S, 100, 1), L(B, 101, 1), ("R",)],
+    "crossed_flip_mirror": [("R",), L(S, 99, 1), L(B, 101, 1), L(B, 100, 1), L(S, 99, 1), ("R",)],
     # market orders resting on one / both sides
     "mo_one": [Mo(B, 2), L(B, 99, 1)],
     "mo_both": [Mo(B, 2), Mo(S, 1), L(S, 100, 1)],
@@ -411,6 +415,8 @@ SEED_BOOKS = {
     "expiring": [L(B, 99, 2, 1), L(S, 101, 1, 1), L(B, 100, 2, 2), L(S, 100, 1, None), ("X",), Mo(S, 1, 1)],
     # two resting orders per side sharing one expiry time (one expiry bucket), one partially filled
     "same_expiry": [L(B, 99, 1, 2), L(B, 98, 2, 2), L(S, 101, 1, 2), L(S, 102, 2, 2), ("T",), L(B, 97, 1, 1), L(S, 103, 1, 1)],
+    # time-to-live values registered in DEcreasing order of expiry on each side (a long-lived order first)
+    "mixed_ttl": [L(B, 99, 1, 3), L(B, 98, 1, 1), L(S, 101, 1, 3), L(S, 102, 2, 1), L(B, 97, 1, 2)],
     # four fills in one round (book crossed during a not-running phase)
     "multi_fill": [("R",), L(B, 101, 1), L(B, 101, 1), L(B, 100, 2), L(S, 99, 1), L(S, 99, 2), L(S, 100, 1), ("R",)],
 }
